@@ -271,7 +271,67 @@ def tag_twins_in_sequence(out):
     return n
 
 
+def wrapped_layouts_write_the_variant_as_it_is(out):
+    """external and adjacent layouts keep the tag OUTSIDE the body: the body written is exactly what the variant's own class writes
+    -- also when that class writes its tag field under another name (class-level or field-level renaming), leaves it out
+    (exclude=True), or is written in the tuple layout -- and the whole reads back to an equal instance"""
+    import typing as t
+    import pane
+    from pane.annotations import Tagged
+    n = 0
+
+    class Ka(pane.PaneBase, rename='kebab'):
+        node_type: t.Literal['a'] = 'a'
+        x_val: int = 0
+
+    class Kb(pane.PaneBase, rename='kebab'):
+        node_type: t.Literal['b'] = 'b'
+
+    class Fa(pane.PaneBase):
+        node_type: t.Literal['a'] = pane.field(default='a', rename='kind')
+        x: int = 0
+
+    class Fb(pane.PaneBase):
+        node_type: t.Literal['b'] = pane.field(default='b', rename='kind')
+
+    class Ea(pane.PaneBase):
+        node_type: t.Literal['a'] = pane.field(default='a', exclude=True)
+        x: int = 0
+
+    class Eb(pane.PaneBase):
+        node_type: t.Literal['b'] = pane.field(default='b', exclude=True)
+
+    class Pa(pane.PaneBase):
+        node_type: t.Literal['a'] = 'a'
+        x: int = 0
+
+    class Pb(pane.PaneBase):
+        node_type: t.Literal['b'] = 'b'
+    with warnings.catch_warnings():
+        warnings.simplefilter('ignore')
+        for label, (A, B) in (('class rename=kebab', (Ka, Kb)), ('field rename', (Fa, Fb)), ('excluded tag field', (Ea, Eb)), ('plain', (Pa, Pb))):
+            for lay_label, ext in (('external', True), ('adjacent', ('t', 'c'))):
+                T = t.Annotated[t.Union[A, B], Tagged('node_type', external=ext)]
+                for x in (A(), B(), A(**{[f.name for f in A.__pane_info__.fields if f.name.startswith('x')][0]: 5})):
+                    n += 1
+                    try:
+                        own = pane.into_data(x, type(x))
+                        d = pane.into_data(x, T)
+                        want = {x.node_type: own} if ext is True else {'t': x.node_type, 'c': own}
+                        if d != want:
+                            out.violation('C12:wrapped-layout-body', f'{label}, {lay_label}: {x!r} is written as {d!r}; the layout is {want!r} (the body is what {type(x).__name__} itself writes)',
+                                          {'variant': label, 'layout': lay_label})
+                            continue
+                        y = pane.from_data(d, T)
+                        if not (y == x) or type(y) is not type(x):
+                            out.violation('C12:wrapped-layout-roundtrip', f'{label}, {lay_label}: {x!r} written as {d!r} reads back as {y!r}', {'variant': label, 'layout': lay_label})
+                    except Exception as e:
+                        out.violation(f'C12:wrapped-layout:{type(e).__name__}', f'{label}, {lay_label}: {x!r}: {type(e).__name__}: {str(e)[:160]}', {'variant': label, 'layout': lay_label})
+    return n
+
+
 def run(ctx, out):
+    out.evaluations += wrapped_layouts_write_the_variant_as_it_is(out)
     out.evaluations += tag_twins_in_sequence(out)
     out.rule = ('tagged unions (2-3 variant dataclasses, tags str/int, three layouts) at top level and nested x values: valid per layout, '
                 'edited (tag changed / removed / replaced by list, dict, None, float; keys added), arbitrary. The result or error is compared '
